@@ -689,19 +689,19 @@ def gen_project(rng, knobs=None):
     if knobs.get("intrinsic_named"):
         pnames += rng.sample(INTRINSIC_NAMED_PROCS, 1)
     mods = []
-    used_types = []
     for mi in range(nmod):
         mine = pnames[mi::nmod]
         procs = [gen_proc_shell(rng, p) for p in mine]
         fprocs = [p["name"] for p in procs if p["kind"] == "function"]
         sprocs = [p["name"] for p in procs if p["kind"] == "subroutine"]
+        uses = [m["name"] for m in mods] if mi and rng.random() < 0.8 else []
+        visible_types = [t for m in mods if m["name"] in uses for t in m["types"]]
         types = []
         for ti in range(rng.choice([0, 1, 2])):
             tname = f"t{mi}{ti}"
-            types.append(gen_type(rng, tname, [t["name"] for t in used_types + types], fprocs, sprocs))
-        used_types += types
+            types.append(gen_type(rng, tname, [t["name"] for t in visible_types + types], fprocs, sprocs))
         arrays = rng.sample(ARRAY_NAMES, rng.choice([1, 2, 3]))
-        mods.append({"name": f"m{mi}", "uses": [m["name"] for m in mods] if mi and rng.random() < 0.8 else [],
+        mods.append({"name": f"m{mi}", "uses": uses,
                      "types": types, "arrays": arrays, "procs": procs,
                      "objs": [(f"gobj{mi}", rng.choice(types)["name"])] if types and rng.random() < 0.5 else []})
     program = None
